@@ -39,6 +39,9 @@ CHECKS = {
  "C10": ("exhaustive enumeration of lines (configurations x argv prefix tree; relation graphs x token orderings) containing every fault-free line and every single-fault mutation within the bound, classification oracle from two reference models",
          "Part 1: every conventional / hyphen-value / positional-order configuration x every argv in A(cfg)^<=L (same bounds as C02) — the space contains every fault-free line up to L and all its single-token mutations. The documented-grammar reader's set of broken rule classes decides: none broken => must parse; rejected => kind must lie in the class of a broken rule. Part 2: every relation graph with <=2 (quick) / <=3 (thorough) edges x every ordering of <=3 distinct tokens; presence is derived from the line, R2 without conflict exemptions decides whether ArgumentConflict / MissingRequiredArgument is justified and whether a line breaking nothing is accepted. Every error anywhere: use_stderr <=> not help/version, exit code 0/2, suggested args/subcommands/values exist in the definition.",
          "Trusted: R1 (grammar) and R2 (relations) models; kind classes listed in the evidence assumptions. Where documentation allows both outcomes (requirement broken but possibly excused by a conflict) neither is flagged.", "DESIGN.md §4 C10"),
+ "C11": ("explicit-state breadth-first search over operation histories on one Command value (real method calls as transitions, Debug-text canonical states), invariant = agreement with a fresh definition on every probe argv in every reached state",
+         "Per configuration (28 quick / ~90 thorough dev(<=2) picks: nested and flag subcommands, globals, groups, inference, multicall, required args, help/version variants) two BFS runs over histories of {parse(argv_i) for 16 probe lines incl. failing ones, render help/long help/usage/version, clone} and the same plus build(), deduplicated on the Command's full Debug text, run to fixpoint (depth bound 5/8, reached on the current tree). In every distinct state every probe line is parsed on a clone and must equal the fresh definition's result: equal ArgMatches, same error kind, identical rendered message when no explicit build is in the history; build must be idempotent.",
+         "Trusted: Debug text of Command as a complete state description (no deferred closures in the explored definitions); probe set as listed in checks/src/bin/c11.rs. Histories involving other argv than the probes are not explored.", "DESIGN.md §4 C11"),
 }
 PENDING_REASON = "check not built yet in this round (design in DESIGN.md §4); will be claimed when its checker exists"
 props = [json.loads(l) for l in open('/verif/properties.jsonl')]
